@@ -1,14 +1,14 @@
 package main
 
 import (
-	"math/big"
-	"crypto/x509/pkix"
 	"bytes"
 	"crypto"
 	"crypto/sha256"
 	"crypto/x509"
+	"crypto/x509/pkix"
 	"encoding/binary"
 	"fmt"
+	"math/big"
 	"os"
 	"path/filepath"
 	"strings"
@@ -139,6 +139,9 @@ func c03Eval(c *Ctx, cs Case) {
 				name = "signer" + strings.Repeat("p", pad)
 			}
 			return makeRSACert(key, certShape{issuer: pkix.Name{CommonName: name}, serial: big.NewInt(serial), desc: fmt.Sprintf("pad%d/%s/%d", pad, name, serial)}), key
+		}
+		if k == 1 {
+			return makeRSACert(key, shapes[9]), key // issued by a CA: issuer and subject differ
 		}
 		return makeRSACert(key, shapes[k%len(shapes)]), key
 	}
@@ -294,7 +297,7 @@ func c03Gen(c *Ctx) {
 
 func init() {
 	register("C03", &PropDef{
-		Rule:   "well-formed images from the C01 generator (all layout classes; unsigned and with an existing 1- or 2-entry certificate table) x signing histories of 1..3 signatures by two RSA keys (2048; thorough also 3072/4096) in any order, the same key possibly twice, under certificates whose names run through 8 consecutive lengths so that the signature length takes every residue mod 8, the signers' certificates sharing nothing / the serial number only / the issuer name only, with serialise/re-parse after a random subset of steps; after every step the output bytes are checked by an independent walker, its digest by the Lean Spec, and the 3-certificate verification matrix by the library, the Lean Impl model and the Lean Spec. Every case is non-trivial; distinct = distinct (image spec, history).",
+		Rule:   "well-formed images from the C01 generator (all layout classes; unsigned and with an existing 1- or 2-entry certificate table) x signing histories of 1..3 signatures by two RSA keys (one under a CA-issued certificate; 2048; thorough also 3072/4096) in any order, the same key possibly twice, under certificates whose names run through 8 consecutive lengths so that the signature length takes every residue mod 8, the signers' certificates sharing nothing / the serial number only / the issuer name only, with serialise/re-parse after a random subset of steps; after every step the output bytes are checked by an independent walker, its digest by the Lean Spec, and the 3-certificate verification matrix by the library, the Lean Impl model and the Lean Spec. Every case is non-trivial; distinct = distinct (image spec, history).",
 		Assume: []string{"no two signing certificates share both issuer and serial (two different keys under one issuer+serial make the verification loop stop with an error at the first of them; noted, not claimed)", "RSA PKCS#1 v1.5 signatures are deterministic"},
 		Eval:   c03Eval, Gen: c03Gen,
 	})
